@@ -156,6 +156,7 @@ def check(case):
 
         o = yaml.safe_load(case.nc["hypnotoad_inputs_yaml"])
         lab["nonorthogonal_spacing_method"] = o.get("nonorthogonal_spacing_method") if not o.get("orthogonal", True) else None
+        lab["loose_follow_perpendicular_atol"] = bool(float(o.get("follow_perpendicular_atol", 1e-8)) > 1e-6)
     except Exception:  # noqa: BLE001
         fails.append(("C12/inputs-yaml-not-loadable", {}, {}))
     fails = [(b, d, dict(lab, **(l or {}))) for b, d, l in fails]
